@@ -31,7 +31,7 @@ func TestC16(t *testing.T) {
 		return
 	}
 	kinds := []string{"stop", "cancel", "gstop"}
-	r.Parallel(t, "priority-every-position", r.Cfg.pick(40, 1200), func(t *testing.T, idx int, rng *rand.Rand) {
+	r.Parallel(t, "priority-every-position", r.Cfg.pick(70, 1200), func(t *testing.T, idx int, rng *rand.Rand) {
 		base := genPrioScenario(rng, prioGen{Vers: []string{"v1", "v1", "v1s"}, Dividers: allDividers, Mode: "general", MaxH: 24})
 		for len(base.Script) > 28 || base.H > 40 {
 			base = genPrioScenario(rng, prioGen{Vers: []string{"v1", "v1", "v1s"}, Dividers: allDividers, Mode: "general", MaxH: 24})
